@@ -401,3 +401,38 @@ def _callback_oracle(ctx: Ctx):
                 return [ise]
         return []
     return oracle
+
+
+def every_datagram_validated(ctx: Ctx, rep, rule: str, ci: ClassInfo):
+    """Every path of the receive callback evaluates the command's validator on what it received (joined with a
+    stored fragment or not): nothing is filtered out, answered or ignored on the strength of an ad-hoc test of the
+    bytes before the validator has seen them - such a test drops continuation fragments and conforming frames."""
+    cbs = [f for f in loop_callbacks(ctx, ci) if f.name in ("datagram_received", "data_received")]
+    for cb in cbs:
+        bad = None
+        n = 0
+        for p in protocol_paths(ctx, cb):
+            n += 1
+            reached = any(ev.kind in ("call", "raise", "test") and isinstance(ev.node, ast.Call) and (call_chain(ev.node) or ("",))[-1] == "validator" for ev in p.events)
+            if not reached and bad is None:
+                bad = p
+        rep.check(bad is None and n > 0, rule, "validated:%s" % cb.short, cb.loc(), "%s hands every received byte string to the validator (%d paths)" % (cb.short, n),
+                  bad="%s can finish without the validator having seen the received bytes [path %s]: frames (or continuation fragments) taking this path are dropped unseen" % (
+                      cb.short, bad.describe(8) if bad else ""))
+
+
+def only_send_request_transmits(ctx: Ctx, rep, rule: str, ci: ClassInfo):
+    """The transport write lives in _send_request (or helpers reached only from it): a callback or another method that
+    writes to the transport bypasses the request lock, the timer and - for Modbus/TCP - the renewal of the transaction id."""
+    sr = method(ctx, ci, "_send_request")
+    for c in [x for x in ctx.prog.mro(ci) if hasattr(x, "methods")]:
+        for m in c.methods.values():
+            if ctx.prog.find_method(ci, m.name) is not m:
+                continue
+            sends = [n for n in walk_no_lambda(m.node) if isinstance(n, ast.Call) and (call_chain(n) or ())[:2] == ("self", "_transport")
+                     and (call_chain(n) or ("",))[-1] in ("sendto", "write")]
+            if not sends:
+                continue
+            ok = only_reached_from(ctx, m, [sr])
+            rep.check(ok, rule, "sender:%s.%s" % (ci.name, m.name), m.loc(sends[0]), "%s is the transmission helper of %s" % (m.short, ci.name),
+                      bad="%s writes to the transport outside _send_request: the frame goes out without the request lock / timer discipline and (Modbus/TCP) with the transaction id of an earlier transmission" % m.short)
